@@ -16,10 +16,10 @@ Qed.
 Section AssocLemmas.
   Context {K V : Type} (eqb : K -> K -> bool) (eqb_spec : forall x y, eqb x y = true <-> x = y).
 
-  Lemma eqb_refl' x : eqb x x = true. Proof. now apply eqb_spec. Qed.
-  Lemma eqb_neq x y : x <> y -> eqb x y = false.
+  Lemma eqb_refl' (x : K) : eqb x x = true. Proof. now apply eqb_spec. Qed.
+  Lemma eqb_neq (x y : K) : x <> y -> eqb x y = false.
   Proof. intros H. destruct (eqb x y) eqn:E; auto. apply eqb_spec in E. contradiction. Qed.
-  Lemma eqb_dec x y : {x = y} + {x <> y}.
+  Lemma eqb_dec (x y : K) : {x = y} + {x <> y}.
   Proof. destruct (eqb x y) eqn:E; [left; now apply eqb_spec|right; intros ->; rewrite eqb_refl' in E; discriminate]. Qed.
 
   Lemma aget_aset (m : list (K * V)) k v k' :
@@ -69,11 +69,11 @@ Section AssocLemmas.
   Lemma keys_aset (m : list (K * V)) k v x :
     In x (map fst (aset eqb m k v)) <-> x = k \/ In x (map fst m).
   Proof.
-    induction m as [|(a, b) m IH]; cbn [aset map fst].
-    - cbn. intuition.
+    induction m as [|(a, b) m IH]; cbn [aset].
+    - simpl. intuition.
     - destruct (eqb k a) eqn:E.
-      + apply eqb_spec in E. subst. cbn [map fst]. intuition.
-      + cbn [map fst]. rewrite IH. intuition.
+      + apply eqb_spec in E. subst. simpl. intuition.
+      + simpl. rewrite IH. intuition.
   Qed.
 
   Lemma nodup_keys_aset (m : list (K * V)) k v :
@@ -107,8 +107,8 @@ Lemma nth_upd_nth {A} (l : list A) i x j :
   if Nat.eqb j i then (match nth_error l i with Some _ => Some x | None => None end) else nth_error l j.
 Proof.
   revert i j. induction l as [|a l IH]; intros i j.
-  - cbn [upd_nth]. destruct (Nat.eqb j i); destruct i, j; reflexivity.
-  - destruct i, j; cbn [upd_nth nth_error Nat.eqb]; auto. apply IH.
+  - destruct i, j; cbn; try reflexivity. destruct (Nat.eqb j i); reflexivity.
+  - destruct i, j; cbn [upd_nth nth_error Nat.eqb]; auto.
 Qed.
 
 Lemma length_upd_nth {A} (l : list A) i x : length (upd_nth l i x) = length l.
@@ -129,9 +129,10 @@ Proof.
   - apply Nat.eqb_eq in E. subst. rewrite nth_error_app2, Nat.sub_diag; auto.
   - apply Nat.eqb_neq in E. destruct (Nat.lt_ge_cases j (length (heap s))).
     + now rewrite nth_error_app1.
-    + rewrite nth_error_app2 by lia. destruct (nth_error (heap s) j) eqn:F.
-      * apply nth_error_Some in H. lia. congruence.
-      * destruct (j - length (heap s))%nat eqn:G; [lia|]. cbn. now destruct n.
+    + assert (H1 : nth_error (heap s ++ [l]) j = None).
+      { apply nth_error_None. rewrite app_length. cbn [length]. lia. }
+      assert (H2 : nth_error (heap s) j = None) by (apply nth_error_None; lia).
+      now rewrite H1, H2.
 Qed.
 
 (* ---- paths --------------------------------------------------------------------------- *)
@@ -160,6 +161,1290 @@ Lemma is_path_in_some s : forall p lid x, is_path s lid p -> In x p -> exists l,
 Proof.
   induction p as [|y rest IH]; intros lid x H Hin; [destruct H|].
   destruct H as [-> H]. destruct Hin as [<-|Hin].
-  - destruct rest; [destruct H as (r & i & b & f & st & H)|destruct H as [(r & i & n & ss & H) _]]; eauto.
+  - destruct rest as [|z0 r0]; [destruct H as (r & i & b & f & st & H)|destruct H as [(r & i & n1 & ss & H) _]]; eauto.
   - destruct rest as [|z r]; [destruct Hin|]. destruct H as [_ H]. eapply IH; eauto.
 Qed.
+
+(* ---- descendants ----------------------------------------------------------------------- *)
+Lemma mem_app x l1 l2 : mem x (l1 ++ l2) = mem x l1 || mem x l2.
+Proof. unfold mem. apply existsb_app. Qed.
+
+Lemma desc_add_spec d anc hash r e :
+  is_descendant (desc_add d anc hash) r e = is_descendant d r e || ((e =? anc) && (r =? hash)).
+Proof.
+  unfold desc_add, is_descendant.
+  destruct (aget N.eqb d anc) as [sub|] eqn:E.
+  - destruct (mem hash sub) eqn:M.
+    + destruct (e =? anc) eqn:E1; [|now rewrite orb_false_r].
+      apply N.eqb_eq in E1. subst e. rewrite E. cbn [andb].
+      destruct (r =? hash) eqn:E2; [|now rewrite orb_false_r].
+      apply N.eqb_eq in E2. subst r. now rewrite M.
+    + rewrite (aget_aset N.eqb N.eqb_eq). destruct (e =? anc) eqn:E1.
+      * apply N.eqb_eq in E1. subst e. rewrite E, mem_app. cbn [andb]. f_equal.
+        unfold mem. cbn [existsb]. now rewrite orb_false_r.
+      * now rewrite orb_false_r.
+  - rewrite (aget_aset N.eqb N.eqb_eq). destruct (e =? anc) eqn:E1.
+    + apply N.eqb_eq in E1. subst e. rewrite E. cbn [andb orb]. unfold mem. cbn [existsb].
+      now rewrite orb_false_r.
+    + now rewrite orb_false_r.
+Qed.
+
+Definition root_is (s : db) (e : N) (x : nat) : bool :=
+  match hget s x with Some l => layer_root l =? e | None => false end.
+
+Lemma root_is_spec s e x : root_is s e x = true <-> root_of s x e.
+Proof.
+  unfold root_is, root_of. destruct (hget s x) as [l|].
+  - rewrite N.eqb_eq. split; [intros <-; eauto|intros (l' & H & <-); congruence].
+  - split; [discriminate|intros (l' & H & _); discriminate].
+Qed.
+
+Lemma fill_ancestors_spec s hash r e : forall pp p fuel d,
+  is_path s p pp -> (length pp <= fuel)%nat ->
+  is_descendant (fill_ancestors fuel s d p hash) r e =
+  is_descendant d r e || ((r =? hash) && existsb (root_is s e) pp).
+Proof.
+  induction pp as [|x rest IH]; intros p fuel d H Hl; [destruct H|].
+  destruct H as [-> H]. destruct fuel as [|f]; [cbn in Hl; lia|].
+  cbn [fill_ancestors existsb]. unfold root_is at 1.
+  destruct rest as [|y rest'].
+  - destruct H as (r0 & i & b & f0 & st & ->). rewrite desc_add_spec. cbn [layer_root existsb].
+    rewrite orb_false_r. f_equal. rewrite (N.eqb_sym r0 e). apply andb_comm.
+  - destruct H as [(r0 & i & n & ss & ->) H]. rewrite (IH y f); auto; [|cbn [length] in *; lia].
+    rewrite desc_add_spec. cbn [layer_root]. rewrite <- orb_assoc. f_equal.
+    rewrite (N.eqb_sym r0 e). destruct (r =? hash); cbn [andb]; [|now rewrite andb_false_r].
+    now rewrite andb_true_r.
+Qed.
+
+(* ---- lookup_add --------------------------------------------------------------------------- *)
+Definition lk_get (lk : lookup) (k : skey) : list N :=
+  match aget skey_eqb lk k with Some l => l | None => [] end.
+
+Lemma lookup_add_spec st : forall keys lk k,
+  NoDup keys ->
+  lk_get (lookup_add lk st keys) k =
+  if existsb (skey_eqb k) keys then lk_get lk k ++ [st] else lk_get lk k.
+Proof.
+  unfold lookup_add.
+  induction keys as [|k0 ks IH]; intros lk k Hnd; cbn [fold_left existsb]; [reflexivity|].
+  inversion Hnd as [|? ? Hnot Hnd']; subst.
+  rewrite IH by assumption.
+  set (f := match aget skey_eqb lk k0 with
+            | Some lst => aset skey_eqb lk k0 (lst ++ [st])
+            | None => aset skey_eqb lk k0 [st] end).
+  assert (Hf : lk_get f k = if skey_eqb k k0 then lk_get lk k0 ++ [st] else lk_get lk k).
+  { unfold f, lk_get. destruct (aget skey_eqb lk k0) eqn:E; rewrite (aget_aset skey_eqb skey_eqb_spec);
+      destruct (skey_eqb k k0); reflexivity. }
+  rewrite Hf. destruct (skey_eqb k k0) eqn:E.
+  - apply skey_eqb_spec in E. subst k0.
+    destruct (existsb (skey_eqb k) ks) eqn:E2; [|reflexivity].
+    exfalso. apply existsb_exists in E2. destruct E2 as (x & Hx & Hxe). apply skey_eqb_spec in Hxe. subst. auto.
+  - reflexivity.
+Qed.
+
+Lemma existsb_skey k keys : existsb (skey_eqb k) keys = true <-> In k keys.
+Proof.
+  rewrite existsb_exists. split.
+  - intros (x & Hx & He). apply skey_eqb_spec in He. now subst.
+  - intros H. exists k. split; auto. now apply skey_eqb_spec.
+Qed.
+
+(* ---- live roots ------------------------------------------------------------------------------ *)
+Lemma live_iff s r : In r (live_roots s) <-> exists lid, tget s r = Some lid.
+Proof.
+  unfold live_roots, tget. split.
+  - intros H. apply (in_keys_aget N.eqb N.eqb_eq). exact H.
+  - intros (lid & H). eapply (aget_some_in N.eqb N.eqb_eq); eauto.
+Qed.
+
+Lemma ordered_app d l x :
+  ordered d l -> (forall y, In y l -> is_descendant d y x = false) -> ordered d (l ++ [x]).
+Proof.
+  induction l as [|a l IH]; intros Ho Hx; cbn [app ordered].
+  - split; auto. intros y [].
+  - destruct Ho as [Ha Ho]. split.
+    + intros y Hy. apply in_app_or in Hy. destruct Hy as [Hy|[<-|[]]]; auto. apply Hx. now left.
+    + apply IH; auto. intros y Hy. apply Hx. now right.
+Qed.
+
+Lemma ordered_ext d d' l :
+  (forall x y, In x l -> In y l -> is_descendant d' x y = is_descendant d x y) ->
+  ordered d l -> ordered d' l.
+Proof.
+  induction l as [|a l IH]; intros He Ho; cbn [ordered]; auto.
+  destruct Ho as [Ha Ho]. split.
+  - intros y Hy. rewrite He; [auto|now left|now right].
+  - apply IH; auto. intros x y Hx Hy. apply He; now right.
+Qed.
+
+Lemma NoDup_app_single {A} (l : list A) x : NoDup l -> ~ In x l -> NoDup (l ++ [x]).
+Proof.
+  induction l as [|a l IH]; intros H Hx; cbn [app].
+  - constructor; [intros []|constructor].
+  - inversion H; subst. constructor.
+    + rewrite in_app_iff. intros [Hin|[->|[]]]; auto. apply Hx. now left.
+    + apply IH; auto. intros Hin. apply Hx. now right.
+Qed.
+
+(* ---- layertree.go add preserves the invariant ----------------------------------------------- *)
+Lemma add_inv s root p pl nodes states :
+  Inv s -> tget s root = None -> (exists parent, tget s parent = Some p) -> hget s p = Some pl ->
+  NoDup (map fst (kv_data states)) ->
+  let lid := length (heap s) in
+  let l := Diff root (layer_id pl + 1) nodes states p in
+  let s1 := with_heap s (heap s ++ [l]) in
+  Inv (with_tr s1 {| t_base := t_base (tr s1);
+                     t_layers := aset N.eqb (t_layers (tr s1)) root lid;
+                     t_desc := fill_ancestors (walk_fuel s1) s1 (t_desc (tr s1)) p root;
+                     t_lookup := lookup_add (t_lookup (tr s1)) root (map fst (kv_data states));
+                     t_lkok := t_lkok (tr s1) |}).
+Proof.
+  intros I Hroot (parent & Hparent) Hp Hnd lid l s1.
+  set (s' := with_tr s1 _).
+  assert (Hh : forall x, hget s' x = if Nat.eqb x lid then Some l else hget s x).
+  { intros x. unfold s', hget, with_tr. cbn [heap]. apply hget_alloc. }
+  assert (Hh1 : forall x, hget s1 x = if Nat.eqb x lid then Some l else hget s x).
+  { intros x. apply hget_alloc. }
+  assert (Ht : forall r, tget s' r = if r =? root then Some lid else tget s r).
+  { intros r. unfold s', tget, with_tr. cbn [tr t_layers]. apply (aget_aset N.eqb N.eqb_eq). }
+  assert (Hold : forall x l0, hget s x = Some l0 -> hget s' x = Some l0 /\ hget s1 x = Some l0).
+  { intros x l0 H. rewrite Hh, Hh1. pose proof (hget_lt _ _ _ H).
+    destruct (Nat.eqb x lid) eqn:E; [apply Nat.eqb_eq in E; unfold lid in E; lia|auto]. }
+  assert (Hro : forall x e, root_of s x e -> root_of s' x e).
+  { intros x e (l0 & H & He). exists l0. split; auto. apply Hold; auto. }
+  assert (Hro' : forall x e, x <> lid -> root_of s' x e -> root_of s x e).
+  { intros x e Hx (l0 & H & He). rewrite Hh in H. apply Nat.eqb_neq in Hx. rewrite Hx in H. exists l0; auto. }
+  assert (Hpe : forall a pp, is_path s a pp -> is_path s' a pp /\ is_path s1 a pp).
+  { intros a pp H. split; eapply is_path_ext; try exact H; intros x Hx;
+      destruct (is_path_in_some _ _ _ _ H Hx) as (l0 & Hl0); rewrite Hl0; apply Hold; auto. }
+  assert (Hbase : t_base (tr s') = t_base (tr s)) by reflexivity.
+  destruct (inv_path s I _ _ Hparent) as (Hproot & qp & Hpp & Hplen & Hpnd & Hpobj).
+  set (base := t_base (tr s)) in *.
+  assert (Hnl : forall x, In x (qp ++ [base]) -> x <> lid).
+  { intros x Hx. destruct (is_path_in_some _ _ _ _ Hpp Hx) as (l0 & Hl0).
+    pose proof (hget_lt _ _ _ Hl0). unfold lid. lia. }
+  assert (Hnewpath : is_path s' lid (lid :: qp ++ [base])).
+  { split; auto. rewrite Hh, Nat.eqb_refl.
+    destruct (qp ++ [base]) as [|y r0] eqn:E; [destruct qp; discriminate|].
+    destruct Hpp as [Hy Hpp']. subst y. split; [unfold l; eauto|].
+    apply (Hpe p (p :: r0)). split; auto. }
+  assert (Hlive_ne : forall r x, tget s r = Some x -> r <> root).
+  { intros r x H ->. congruence. }
+  assert (Hdesc : forall r e, is_descendant (t_desc (tr s')) r e =
+                    is_descendant (t_desc (tr s)) r e || ((r =? root) && existsb (root_is s1 e) (qp ++ [base]))).
+  { intros r e. unfold s', with_tr. cbn [tr t_desc].
+    apply fill_ancestors_spec; [apply Hpe; exact Hpp|]. unfold walk_fuel, s1, with_heap. cbn [heap].
+    rewrite (app_length (heap s)). cbn [length]. lia. }
+  assert (Hnojunk : forall e, is_descendant (t_desc (tr s)) root e = false).
+  { intros e. destruct (is_descendant (t_desc (tr s)) root e) eqn:E; auto.
+    apply (inv_desc_live s I) in E. destruct E as [E _]. apply live_iff in E. destruct E as (x & E). congruence. }
+  assert (Hris : forall e, existsb (root_is s1 e) (qp ++ [base]) = true <->
+                           exists x, In x (qp ++ [base]) /\ root_of s x e).
+  { intros e. rewrite existsb_exists. split; intros (x & Hx & H); exists x; split; auto.
+    - apply root_is_spec in H. destruct H as (l0 & H & He). rewrite Hh1 in H.
+      pose proof (Hnl _ Hx) as Hne. apply Nat.eqb_neq in Hne. rewrite Hne in H. exists l0; auto.
+    - apply root_is_spec. destruct H as (l0 & H & He). exists l0. split; auto. apply Hold; auto. }
+  assert (Hlk : forall k, lk_list s' k =
+                  if existsb (skey_eqb k) (map fst (kv_data states)) then lk_list s k ++ [root] else lk_list s k).
+  { intros k. unfold lk_list, s', with_tr. cbn [tr t_lookup]. apply (lookup_add_spec root); auto. }
+  assert (Hhk : forall x k v, x <> lid -> (has_key s' x k v <-> has_key s x k v)).
+  { intros x k v Hx. apply Nat.eqb_neq in Hx. unfold has_key. rewrite Hh, Hx. tauto. }
+  assert (Hrootnot : forall k, ~ In root (lk_list s k)).
+  { intros k H. apply (inv_lookup s I) in H. destruct H as (x & v & H & _). congruence. }
+  constructor.
+  - (* base *)
+    destruct (inv_base s I) as (br & bi & bb & bf & Hb). exists br, bi, bb, bf.
+    rewrite Hbase. apply Hold. exact Hb.
+  - (* paths *)
+    intros r x Hx. rewrite Ht in Hx. rewrite Hbase. fold base. destruct (r =? root) eqn:E.
+    + apply N.eqb_eq in E. subst r. inversion Hx; subst x. split.
+      * exists l. split; [rewrite Hh, Nat.eqb_refl; auto|reflexivity].
+      * exists (lid :: qp). cbn [app]. split; [exact Hnewpath|]. split; [|split].
+        -- cbn [length]. unfold s', with_tr, s1, with_heap. cbn [heap]. rewrite (app_length (heap s)). cbn [length] in *. lia.
+        -- constructor; auto. intros Hin. apply (Hnl _ Hin). reflexivity.
+        -- intros y [<-|Hy].
+           ++ exists root. split; [exists l; split; [rewrite Hh, Nat.eqb_refl; auto|reflexivity]|].
+              rewrite Ht, N.eqb_refl. reflexivity.
+           ++ destruct (Hpobj _ Hy) as (ry & Hry & Hty). exists ry. split; auto.
+              rewrite Ht. apply (Hlive_ne _ _) in Hty as Hne. apply N.eqb_neq in Hne. now rewrite Hne.
+    + destruct (inv_path s I _ _ Hx) as (Hr & q & Hq & Hql & Hqn & Hqo). split; auto.
+      exists q. repeat split; auto.
+      * apply Hpe. exact Hq.
+      * fold base in Hql. unfold s', with_tr, s1, with_heap. cbn [heap]. rewrite (app_length (heap s)). cbn [length] in *. lia.
+      * intros y Hy. destruct (Hqo _ Hy) as (ry & Hry & Hty). exists ry. split; auto.
+        rewrite Ht. apply (Hlive_ne _ _) in Hty as Hne. apply N.eqb_neq in Hne. now rewrite Hne.
+  - (* descendants *)
+    intros r x pth e Hx Hpth. rewrite Ht in Hx. rewrite Hdesc. destruct (r =? root) eqn:E.
+    + apply N.eqb_eq in E. subst r. inversion Hx; subst x.
+      rewrite (is_path_det _ _ _ _ Hpth Hnewpath). cbn [tl andb]. rewrite Hnojunk. cbn [orb].
+      rewrite Hris. split; intros (y & Hy & H); exists y; split; auto.
+    + cbn [andb]. rewrite orb_false_r.
+      destruct (inv_path s I _ _ Hx) as (Hr & q & Hq & _ & _ & _).
+      assert (pth = q ++ [base]) by (eapply is_path_det; [exact Hpth|apply Hpe; exact Hq]). subst pth.
+      rewrite (inv_desc s I _ _ _ e Hx Hq). split; intros (y & Hy & H); exists y; split; auto.
+      apply Hro'; auto.
+      assert (Hyin : In y (q ++ [base])) by (destruct q; cbn [app tl] in *; [destruct Hy|now right]).
+      destruct (is_path_in_some _ _ _ _ Hq Hyin) as (l0 & Hl0).
+      pose proof (hget_lt _ _ _ Hl0). unfold lid. lia.
+  - (* lookup *)
+    intros k e. rewrite Hlk. destruct (existsb (skey_eqb k) (map fst (kv_data states))) eqn:Ek.
+    + apply existsb_skey in Ek. destruct (in_keys_aget skey_eqb skey_eqb_spec _ _ Ek) as (v0 & Hv0).
+      rewrite in_app_iff. split.
+      * intros [H|[<-|[]]].
+        -- apply (inv_lookup s I) in H. destruct H as (x & v & Hx & Hk). exists x, v.
+           pose proof (Hlive_ne _ _ Hx) as Hne. apply N.eqb_neq in Hne. rewrite Ht, Hne. split; auto.
+           apply Hhk; auto. destruct Hk as (a & b & c & d & f & Hk & _). pose proof (hget_lt _ _ _ Hk). unfold lid. lia.
+        -- exists lid, v0. rewrite Ht, N.eqb_refl. split; auto. exists root, (layer_id pl + 1), nodes, states, p.
+           rewrite Hh, Nat.eqb_refl. auto.
+      * intros (x & v & Hx & Hk). rewrite Ht in Hx. destruct (e =? root) eqn:E.
+        -- apply N.eqb_eq in E. right. now left.
+        -- left. apply (inv_lookup s I). exists x, v. split; auto. apply Hhk; auto.
+           intros ->. destruct (inv_path s I _ _ Hx) as ((l0 & Hl0 & _) & _). pose proof (hget_lt _ _ _ Hl0). unfold lid in *. lia.
+    + split.
+      * intros H. apply (inv_lookup s I) in H. destruct H as (x & v & Hx & Hk). exists x, v.
+        pose proof (Hlive_ne _ _ Hx) as Hne. apply N.eqb_neq in Hne. rewrite Ht, Hne. split; auto.
+        apply Hhk; auto. destruct Hk as (a & b & c & d & f & Hk & _). pose proof (hget_lt _ _ _ Hk). unfold lid. lia.
+      * intros (x & v & Hx & Hk). rewrite Ht in Hx. destruct (e =? root) eqn:E.
+        -- exfalso. inversion Hx; subst x. destruct Hk as (a & b & c & d & f & Hk & Hg).
+           rewrite Hh, Nat.eqb_refl in Hk. inversion Hk; subst.
+           apply (aget_some_in skey_eqb skey_eqb_spec) in Hg. apply existsb_skey in Hg. congruence.
+        -- apply (inv_lookup s I). exists x, v. split; auto. apply Hhk; auto.
+           intros ->. destruct (inv_path s I _ _ Hx) as ((l0 & Hl0 & _) & _). pose proof (hget_lt _ _ _ Hl0). unfold lid in *. lia.
+  - (* order *)
+    intros k. rewrite Hlk.
+    assert (Hordold : ordered (t_desc (tr s')) (lk_list s k)).
+    { apply (ordered_ext (t_desc (tr s))); [|apply (inv_order s I)].
+      intros x y Hx Hy. rewrite Hdesc. destruct (x =? root) eqn:E; [|cbn [andb]; now rewrite orb_false_r].
+      apply N.eqb_eq in E. subst x. exfalso. eapply Hrootnot; eauto. }
+    destruct (existsb (skey_eqb k) (map fst (kv_data states))); auto.
+    apply ordered_app; auto. intros y Hy. rewrite Hdesc.
+    destruct (y =? root) eqn:E; [apply N.eqb_eq in E; subst y; exfalso; eapply Hrootnot; eauto|].
+    cbn [andb]. rewrite orb_false_r.
+    destruct (is_descendant (t_desc (tr s)) y root) eqn:Ed; auto.
+    apply (inv_desc_live s I) in Ed. destruct Ed as [_ Ed]. apply live_iff in Ed. destruct Ed as (x & Ed). congruence.
+  - (* no junk *)
+    intros r e H. rewrite Hdesc in H. apply orb_true_iff in H. rewrite !live_iff. destruct H as [H|H].
+    + apply (inv_desc_live s I) in H. rewrite !live_iff in H. destruct H as ((x & Hx) & (y & Hy)).
+      split; [exists x|exists y]; rewrite Ht.
+      * pose proof (Hlive_ne _ _ Hx) as Hne. apply N.eqb_neq in Hne. now rewrite Hne.
+      * pose proof (Hlive_ne _ _ Hy) as Hne. apply N.eqb_neq in Hne. now rewrite Hne.
+    + apply andb_true_iff in H. destruct H as [Hr He]. apply N.eqb_eq in Hr. subst r. split.
+      * exists lid. now rewrite Ht, N.eqb_refl.
+      * apply Hris in He. destruct He as (x & Hx & Hxe). destruct (Hpobj _ Hx) as (rx & Hrx & Htx).
+        rewrite (root_of_fun _ _ _ _ Hxe Hrx). exists x. rewrite Ht.
+        pose proof (Hlive_ne _ _ Htx) as Hne. apply N.eqb_neq in Hne. now rewrite Hne.
+  - (* nodup lists *)
+    intros k. rewrite Hlk. destruct (existsb (skey_eqb k) (map fst (kv_data states))); [|apply (inv_lk_nodup s I)].
+    apply NoDup_app_single; [apply (inv_lk_nodup s I)|apply Hrootnot].
+  - (* nodup keys *)
+    intros r x r' i n ss pp Hx Hd. rewrite Ht in Hx. rewrite Hh in Hd. destruct (r =? root) eqn:E.
+    + inversion Hx; subst x. rewrite Nat.eqb_refl in Hd. inversion Hd; subst. exact Hnd.
+    + destruct (Nat.eqb x lid) eqn:E2.
+      * apply Nat.eqb_eq in E2. destruct (inv_path s I _ _ Hx) as ((l0 & Hl0 & _) & _).
+        pose proof (hget_lt _ _ _ Hl0). unfold lid in *. lia.
+      * eapply (inv_keys_nodup s I); eauto.
+  - unfold s', with_tr. cbn [tr t_layers]. apply (nodup_keys_aset N.eqb N.eqb_eq). apply (inv_layers_nodup s I).
+Qed.
+
+(* ---- buffer operations do not touch layers or the tree ----------------------------------------- *)
+Definition same_htc (s s' : db) : Prop := heap s' = heap s /\ tr s' = tr s /\ cfg s' = cfg s.
+
+Lemma same_htc_refl s : same_htc s s. Proof. repeat split. Qed.
+Lemma same_htc_trans a b c : same_htc a b -> same_htc b c -> same_htc a c.
+Proof. intros (H1 & H2 & H3) (H4 & H5 & H6). repeat split; congruence. Qed.
+
+Lemma do_flush_htc s bid id : same_htc s (do_flush s bid id).
+Proof.
+  unfold do_flush. destruct (bget s bid); [|apply same_htc_refl].
+  destruct (_ =? id); repeat split.
+Qed.
+
+Lemma flush_all_htc s : same_htc s (flush_all s).
+Proof.
+  unfold flush_all. generalize (pending s) at 1. intros l. revert s.
+  induction l as [|p l IH]; intros s; cbn [fold_left]; [apply same_htc_refl|].
+  eapply same_htc_trans; [apply do_flush_htc|apply IH].
+Qed.
+
+Lemma wait_flush_htc s bid s' r : wait_flush s bid = (s', r) -> same_htc s s'.
+Proof.
+  unfold wait_flush. destruct (bget s bid); [|intros H; inversion H; apply same_htc_refl].
+  destruct (negb (b_done b)); [intros H; inversion H; apply same_htc_refl|].
+  set (s1 := match find _ _ with Some p => _ | None => s end).
+  assert (same_htc s s1) by (unfold s1; destruct (find _ _); [apply do_flush_htc|apply same_htc_refl]).
+  destruct (bget s1 bid); [destruct (b_err b0)|]; intros H'; inversion H'; subst; auto.
+Qed.
+
+Lemma buf_flush_htc s bid id s' r : buf_flush s bid id = (s', r) -> same_htc s s'.
+Proof.
+  unfold buf_flush. destruct (bget s bid); [|intros H; inversion H; apply same_htc_refl].
+  destruct (b_done b); intros H; inversion H; subst; repeat split.
+Qed.
+
+(* [R dl s s']: only the disk layer object dl may differ, and it stays a disk layer
+   with the same root and id *)
+Definition R (dl : nat) (s s' : db) : Prop :=
+  tr s' = tr s /\ cfg s' = cfg s /\ length (heap s') = length (heap s) /\
+  (forall x, x <> dl -> hget s' x = hget s x) /\
+  (forall r i b f st, hget s dl = Some (Disk r i b f st) ->
+                      exists b' f' st', hget s' dl = Some (Disk r i b' f' st')).
+
+Lemma R_refl dl s : R dl s s.
+Proof. repeat split; auto. intros; eauto. Qed.
+
+Lemma R_trans dl a b c : R dl a b -> R dl b c -> R dl a c.
+Proof.
+  intros (A1 & A2 & A3 & A4 & A5) (B1 & B2 & B3 & B4 & B5). repeat split; try congruence.
+  - intros x Hx. rewrite B4, A4; auto.
+  - intros r i bb f st H. destruct (A5 _ _ _ _ _ H) as (b' & f' & st' & H'). eapply B5; eauto.
+Qed.
+
+Lemma R_htc dl s s' : same_htc s s' -> R dl s s'.
+Proof.
+  intros (H1 & H2 & H3). unfold R, hget. rewrite H1. repeat split; auto. intros; eauto.
+Qed.
+
+Lemma R_hset dl s r i b f st b' f' st' :
+  hget s dl = Some (Disk r i b f st) -> R dl s (hset s dl (Disk r i b' f' st')).
+Proof.
+  intros H. repeat split.
+  - unfold hset, with_heap. cbn [heap]. apply length_upd_nth.
+  - intros x Hx. rewrite hget_hset. apply Nat.eqb_neq in Hx. now rewrite Hx.
+  - intros r0 i0 b0 f0 st0 H0. rewrite H in H0. inversion H0; subst.
+    rewrite hget_hset, Nat.eqb_refl, H. eauto.
+Qed.
+
+Lemma R_set_frozen dl s fr : R dl s (set_disk_frozen s dl fr).
+Proof.
+  unfold set_disk_frozen. destruct (hget s dl) as [[r i b f st|]|] eqn:E; try apply R_refl.
+  eapply R_hset; eauto.
+Qed.
+
+(* ---- disklayer.go commit ------------------------------------------------------------------------- *)
+Lemma commit_spec s dl bottom force s' nd droot did buf frozen st broot bid bn bs bp :
+  disk_commit s dl bottom force = (s', Ok nd) ->
+  hget s dl = Some (Disk droot did buf frozen st) ->
+  hget s bottom = Some (Diff broot bid bn bs bp) ->
+  exists sx b f, R dl s sx /\ nd = length (heap sx) /\
+                 s' = with_heap sx (heap sx ++ [Disk broot bid b f false]).
+Proof.
+  unfold disk_commit. intros H Hd Hb. rewrite Hd, Hb in H.
+  set (s1 := hset s dl (Disk droot did buf frozen true)) in *.
+  assert (R1 : R dl s s1) by (eapply R_hset; eauto).
+  destruct (bget s1 buf) as [b|]; [|inversion H].
+  set (s2 := bset s1 buf (buf_commit b bn bs)) in *.
+  assert (R2 : R dl s s2) by (eapply R_trans; [exact R1|apply R_htc; repeat split]).
+  destruct (buf_full (buf_commit b bn bs) || force).
+  - destruct (match frozen with Some f => wait_flush s2 f | None => (s2, Ok tt) end) as [s3 r3] eqn:E3.
+    assert (R3 : R dl s s3).
+    { eapply R_trans; [exact R2|]. apply R_htc. destruct frozen; [eapply wait_flush_htc; eauto|inversion E3; apply same_htc_refl]. }
+    destruct r3; try (inversion H; fail).
+    set (s4 := set_disk_frozen s3 dl (Some buf)) in *.
+    assert (R4 : R dl s s4) by (eapply R_trans; [exact R3|apply R_set_frozen]).
+    destruct (buf_flush s4 buf bid) as [s5 r5] eqn:E5.
+    assert (R5 : R dl s s5) by (eapply R_trans; [exact R4|apply R_htc; eapply buf_flush_htc; eauto]).
+    destruct r5; try (inversion H; fail).
+    destruct (if c_noasync (cfg s5)
+              then let '(s'0, r') := wait_flush s5 buf in
+                   match r' with Ok _ => (set_disk_frozen s'0 dl None, Ok tt) | _ => (s'0, r') end
+              else (s5, Ok tt)) as [s6 r6] eqn:E6.
+    assert (R6 : R dl s s6).
+    { destruct (c_noasync (cfg s5)); [|inversion E6; subst; auto].
+      destruct (wait_flush s5 buf) as [s'0 r'] eqn:Ew.
+      assert (R dl s s'0) by (eapply R_trans; [exact R5|apply R_htc; eapply wait_flush_htc; eauto]).
+      destruct r'; inversion E6; subst; auto. eapply R_trans; [eassumption|apply R_set_frozen]. }
+    destruct r6; try (inversion H; fail).
+    inversion H; subst. clear H.
+    eexists (with_bufs s6 _), _, _. split; [|split; reflexivity].
+    eapply R_trans; [exact R6|apply R_htc; repeat split].
+  - inversion H; subst. exists s2, buf, frozen. auto.
+Qed.
+
+(* ---- evolution of the heap during persist ---------------------------------------------------------- *)
+Record Ev (bd : nat) (P : list nat) (s s1 : db) : Prop := {
+  ev_tr : tr s1 = tr s;
+  ev_cfg : cfg s1 = cfg s;
+  ev_len : (length (heap s) <= length (heap s1))%nat;
+  ev_frame : forall x, (x < length (heap s))%nat -> ~ In x P -> hget s1 x = hget s x;
+  ev_disk : forall x r i b f st, hget s x = Some (Disk r i b f st) ->
+      exists b' f' st', hget s1 x = Some (Disk r i b' f' st');
+  ev_diff : forall x r i n ss y, hget s x = Some (Diff r i n ss y) ->
+      exists y', hget s1 x = Some (Diff r i n ss y') /\
+                 (y' = y \/ (In x P /\ (bd <= y')%nat)) /\
+                 (forall ry, root_of s y ry -> root_of s1 y' ry)
+}.
+
+Lemma Ev_root bd P s s1 x rx : Ev bd P s s1 -> root_of s x rx -> root_of s1 x rx.
+Proof.
+  intros E (l0 & H & Hr). destruct l0 as [r i b f st|r i n ss y].
+  - destruct (ev_disk _ _ _ _ E _ _ _ _ _ _ H) as (b' & f' & st' & H'). exists (Disk r i b' f' st'). auto.
+  - destruct (ev_diff _ _ _ _ E _ _ _ _ _ _ H) as (y' & H' & _). exists (Diff r i n ss y'). auto.
+Qed.
+
+Lemma Ev_trans bd P Q s s1 s2 : Ev bd P s s1 -> Ev bd Q s1 s2 -> Ev bd (P ++ Q) s s2.
+Proof.
+  intros A B. constructor.
+  - rewrite (ev_tr _ _ _ _ B). apply (ev_tr _ _ _ _ A).
+  - rewrite (ev_cfg _ _ _ _ B). apply (ev_cfg _ _ _ _ A).
+  - pose proof (ev_len _ _ _ _ A). pose proof (ev_len _ _ _ _ B). lia.
+  - intros x Hx Hn. rewrite in_app_iff in Hn. pose proof (ev_len _ _ _ _ A).
+    rewrite (ev_frame _ _ _ _ B), (ev_frame _ _ _ _ A); auto. lia.
+  - intros x r i b f st H. destruct (ev_disk _ _ _ _ A _ _ _ _ _ _ H) as (b' & f' & st' & H').
+    eapply (ev_disk _ _ _ _ B); eauto.
+  - intros x r i n ss y H. destruct (ev_diff _ _ _ _ A _ _ _ _ _ _ H) as (y1 & H1 & Hy1 & Hr1).
+    destruct (ev_diff _ _ _ _ B _ _ _ _ _ _ H1) as (y2 & H2 & Hy2 & Hr2).
+    exists y2. split; auto. split.
+    + rewrite in_app_iff.
+      destruct Hy2 as [->|[Hin Hl]]; [destruct Hy1 as [->|[Hin Hl]]; auto|right; split; auto].
+    + intros ry Hry. auto.
+Qed.
+
+Lemma Ev_weaken bd P Q s s1 :
+  (forall x, (x < length (heap s))%nat -> In x P -> In x Q) -> Ev bd P s s1 -> Ev bd Q s s1.
+Proof.
+  intros Hi E. constructor; try apply E.
+  - intros x Hx Hn. apply (ev_frame _ _ _ _ E); auto.
+  - intros x r i n ss y H. destruct (ev_diff _ _ _ _ E _ _ _ _ _ _ H) as (y' & H' & Hy & Hr).
+    exists y'. split; auto. split; auto. destruct Hy as [->|[Hin Hl]]; auto. right. split; auto.
+    apply Hi; auto. eapply hget_lt; eauto.
+Qed.
+
+Lemma Ev_R bd dl s sx : R dl s sx -> (exists r i b f st, hget s dl = Some (Disk r i b f st)) -> Ev bd [dl] s sx.
+Proof.
+  intros (R1 & R2 & R3 & R4 & R5) (r0 & i0 & b0 & f0 & st0 & Hd). constructor; auto.
+  - lia.
+  - intros x Hx Hn. apply R4. intros ->. apply Hn. now left.
+  - intros x r i b f st H. destruct (Nat.eq_dec x dl) as [->|Hne]; [eauto|]. rewrite R4; eauto.
+  - intros x r i n ss y H. assert (x <> dl) by (intros ->; congruence).
+    exists y. rewrite R4; auto. split; auto. split; auto.
+    intros ry (l0 & Hl0 & Hr). destruct (Nat.eq_dec y dl) as [->|Hne].
+    + rewrite Hd in Hl0. inversion Hl0; subst. destruct (R5 _ _ _ _ _ Hd) as (b' & f' & st' & H').
+      exists (Disk r0 i0 b' f' st'). auto.
+    + exists l0. rewrite R4; auto.
+Qed.
+
+Lemma Ev_alloc bd s l : Ev bd [] s (with_heap s (heap s ++ [l])).
+Proof.
+  assert (H : forall x l0, hget s x = Some l0 -> hget (with_heap s (heap s ++ [l])) x = Some l0).
+  { intros x l0 Hx. rewrite hget_alloc. pose proof (hget_lt _ _ _ Hx).
+    destruct (Nat.eqb x (length (heap s))) eqn:E; [apply Nat.eqb_eq in E; lia|auto]. }
+  constructor; auto.
+  - unfold with_heap. cbn [heap]. rewrite app_length. lia.
+  - intros x Hx _. rewrite hget_alloc. destruct (Nat.eqb x (length (heap s))) eqn:E; [apply Nat.eqb_eq in E; lia|auto].
+  - intros; eauto.
+  - intros x r i n ss y Hx. exists y. split; auto. split; auto. intros ry (l0 & Hl0 & Hr). exists l0; auto.
+Qed.
+
+Lemma Ev_set_parent bd s lid r i n ss y y' :
+  hget s lid = Some (Diff r i n ss y) -> (bd <= y' \/ y' = y)%nat ->
+  (forall ry, root_of s y ry -> root_of s y' ry) -> y' <> lid ->
+  Ev bd [lid] s (set_parent s lid y').
+Proof.
+  intros H Hy Hr Hne. unfold set_parent. rewrite H.
+  assert (Hg : forall x, hget (hset s lid (Diff r i n ss y')) x =
+                         if Nat.eqb x lid then Some (Diff r i n ss y') else hget s x).
+  { intros x. rewrite hget_hset, H. reflexivity. }
+  assert (Hro : forall x rx, root_of s x rx -> root_of (hset s lid (Diff r i n ss y')) x rx).
+  { intros x rx (l0 & Hl0 & Hrx). unfold root_of. rewrite Hg. destruct (Nat.eqb x lid) eqn:E.
+    - apply Nat.eqb_eq in E. subst. rewrite H in Hl0. inversion Hl0; subst. eexists; split; eauto.
+    - eauto. }
+  constructor; auto.
+  - unfold hset, with_heap. cbn [heap]. rewrite length_upd_nth. lia.
+  - intros x Hx Hn. rewrite Hg. destruct (Nat.eqb x lid) eqn:E; auto. apply Nat.eqb_eq in E. subst. exfalso. apply Hn. now left.
+  - intros x r0 i0 b f st Hx. rewrite Hg. destruct (Nat.eqb x lid) eqn:E; [apply Nat.eqb_eq in E; subst; congruence|eauto].
+  - intros x r0 i0 n0 ss0 y0 Hx. rewrite Hg. destruct (Nat.eqb x lid) eqn:E.
+    + apply Nat.eqb_eq in E. subst. rewrite H in Hx. inversion Hx; subst. exists y'. split; auto. split.
+      * destruct Hy as [Hy| ->]; auto. right. split; auto. now left.
+      * intros ry Hry. apply Hro. auto.
+    + exists y0. split; auto.
+Qed.
+
+(* ---- difflayer.go persist ---------------------------------------------------------------------------- *)
+Lemma persist_spec bd : forall fuel s lid force s1 nd pth r i n ss p,
+  persist fuel s lid force = (s1, Ok nd) -> is_path s lid pth ->
+  hget s lid = Some (Diff r i n ss p) -> (bd <= length (heap s))%nat ->
+  Ev bd pth s s1 /\ (length (heap s) <= nd)%nat /\ exists b f, hget s1 nd = Some (Disk r i b f false).
+Proof.
+  induction fuel as [|fu IH]; intros s lid force s1 nd pth r i n ss p H Hp Hl Hbd; [inversion H|].
+  cbn [persist] in H. rewrite Hl in H.
+  destruct pth as [|x0 rest]; [destruct Hp|]. destruct Hp as [-> Hp].
+  destruct rest as [|y rest']; [destruct Hp as (? & ? & ? & ? & ? & Hp); congruence|].
+  destruct Hp as [(r0 & i0 & n0 & ss0 & Hl') Hp]. rewrite Hl in Hl'. inversion Hl'; subst r0 i0 n0 ss0 y. clear Hl'.
+  destruct (hget s p) as [[pr pi pb pf pst|pr pi pn pss pp]|] eqn:Ep; [| |inversion H].
+  - (* parent is the disk layer *)
+    unfold diff_to_disk in H. rewrite Hl, Ep in H.
+    destruct (commit_spec _ _ _ _ _ _ _ _ _ _ _ _ _ _ _ _ H Ep Hl) as (sx & b & f & HR & Hnd & ->).
+    assert (E1 : Ev bd [p] s sx) by (apply Ev_R; eauto 8).
+    pose proof (Ev_trans _ _ _ _ _ _ E1 (Ev_alloc bd sx (Disk r i b f false))) as E2.
+    split; [|split].
+    + eapply Ev_weaken; [|exact E2]. intros x _ Hin. apply in_app_or in Hin. destruct Hin as [[<-|[]]|[]].
+      right. now left.
+    + destruct HR as (_ & _ & HR & _). lia.
+    + exists b, f. rewrite hget_alloc, Hnd, Nat.eqb_refl. reflexivity.
+  - (* parent is a diff layer: recurse, re-parent, commit *)
+    destruct (persist fu s p force) as [s1' r1] eqn:Er.
+    destruct r1 as [result| |]; try (inversion H; fail).
+    destruct (IH _ _ _ _ _ _ _ _ _ _ _ Er Hp Ep Hbd) as (E1 & Hres & rb & rf & Hresd).
+    destruct (ev_diff _ _ _ _ E1 _ _ _ _ _ _ Hl) as (y1 & Hl1 & Hy1 & Hr1).
+    assert (Hlid_lt : (lid < length (heap s))%nat) by (eapply hget_lt; eauto).
+    assert (E2 : Ev bd [lid] s1' (set_parent s1' lid result)).
+    { eapply Ev_set_parent; eauto; [left; lia| |lia].
+      intros ry Hry. assert (ry = pr).
+      { assert (root_of s1' y1 pr) by (apply Hr1; exists (Diff pr pi pn pss pp); auto).
+        eapply root_of_fun; eauto. }
+      subst ry. exists (Disk pr pi rb rf false). auto. }
+    set (s2 := set_parent s1' lid result) in *.
+    assert (Hl2 : hget s2 lid = Some (Diff r i n ss result)).
+    { unfold s2, set_parent. rewrite Hl1, hget_hset, Nat.eqb_refl, Hl1. reflexivity. }
+    assert (Hres2 : hget s2 result = Some (Disk pr pi rb rf false)).
+    { unfold s2, set_parent. rewrite Hl1, hget_hset. destruct (Nat.eqb result lid) eqn:E; [apply Nat.eqb_eq in E; lia|auto]. }
+    unfold diff_to_disk in H. rewrite Hl2, Hres2 in H.
+    destruct (commit_spec _ _ _ _ _ _ _ _ _ _ _ _ _ _ _ _ H Hres2 Hl2) as (sx & b & f & HR & Hnd & ->).
+    assert (E3 : Ev bd [result] s2 sx) by (apply Ev_R; eauto 8).
+    pose proof (Ev_trans _ _ _ _ _ _ (Ev_trans _ _ _ _ _ _ (Ev_trans _ _ _ _ _ _ E1 E2) E3)
+                         (Ev_alloc bd sx (Disk r i b f false))) as E4.
+    split; [|split].
+    + eapply Ev_weaken; [|exact E4]. intros x Hx Hin. rewrite !in_app_iff in Hin.
+      destruct Hin as [[[Hin|[<-|[]]]|[<-|[]]]|[]]; [now right|now left|lia].
+    + pose proof (ev_len _ _ _ _ (Ev_trans _ _ _ _ _ _ (Ev_trans _ _ _ _ _ _ E1 E2) E3)). lia.
+    + exists b, f. rewrite hget_alloc, Hnd, Nat.eqb_refl. reflexivity.
+Qed.
+
+(* ---- more association-list facts ---------------------------------------------------------------------- *)
+Lemma aget_in_nodup {V} (m : list (N * V)) k v :
+  NoDup (map fst m) -> (In (k, v) m <-> aget N.eqb m k = Some v).
+Proof.
+  induction m as [|(a, b) m IH]; cbn [aget map fst]; intros Hn.
+  - split; [intros []|discriminate].
+  - inversion Hn; subst. destruct (N.eqb k a) eqn:E.
+    + apply N.eqb_eq in E. subst a. split.
+      * intros [Heq|Hin]; [inversion Heq; auto|]. exfalso. apply H1. apply in_map_iff. exists (k, v). auto.
+      * intros Heq. inversion Heq. now left.
+    + apply N.eqb_neq in E. rewrite <- IH by auto. split; [intros [Heq|Hin]; [inversion Heq; congruence|auto]|intros; now right].
+Qed.
+
+Lemma keys_adel {V} (m : list (N * V)) k x : In x (map fst (adel N.eqb m k)) -> In x (map fst m).
+Proof.
+  induction m as [|(a, b) m IH]; cbn [adel]; auto.
+  destruct (N.eqb k a); simpl; intuition.
+Qed.
+
+Lemma nodup_keys_adel {V} (m : list (N * V)) k : NoDup (map fst m) -> NoDup (map fst (adel N.eqb m k)).
+Proof.
+  induction m as [|(a, b) m IH]; cbn [adel]; intros H; auto.
+  inversion H; subst. destruct (N.eqb k a); auto. simpl. constructor; auto.
+  intros Hin. apply H2. eapply keys_adel; eauto.
+Qed.
+
+Lemma is_desc_adel d r a e :
+  is_descendant (adel N.eqb d r) a e = if e =? r then false else is_descendant d a e.
+Proof. unfold is_descendant. rewrite (aget_adel N.eqb N.eqb_eq). destruct (e =? r); reflexivity. Qed.
+
+(* ---- a database whose tree is a single disk layer ---------------------------------------------------------- *)
+Lemma singleton_inv s base r i b f ok :
+  hget s base = Some (Disk r i b f false) ->
+  Inv (with_tr s {| t_base := base; t_layers := [(r, base)]; t_desc := []; t_lookup := []; t_lkok := ok |}).
+Proof.
+  intros Hb. set (s' := with_tr s _).
+  assert (Hh : forall x, hget s' x = hget s x) by reflexivity.
+  assert (Ht : forall r0 lid, tget s' r0 = Some lid -> r0 = r /\ lid = base).
+  { intros r0 lid. unfold tget, s', with_tr. cbn [tr t_layers aget]. destruct (N.eqb r0 r) eqn:E; [|discriminate].
+    apply N.eqb_eq in E. intros H. inversion H. auto. }
+  constructor.
+  - exists r, i, b, f. exact Hb.
+  - intros r0 lid H. destruct (Ht _ _ H) as [-> ->]. split.
+    + exists (Disk r i b f false). split; auto.
+    + exists []. cbn [app]. split; [|split; [|split]].
+      * split; auto. cbn [t_base tr s' with_tr]. eauto 8.
+      * cbn. lia.
+      * constructor; [intros []|constructor].
+      * intros x [<-|[]]. exists r. split; [exists (Disk r i b f false); auto|].
+        unfold tget, s', with_tr. cbn [tr t_layers aget t_base]. now rewrite N.eqb_refl.
+  - intros r0 lid p e H Hp. destruct (Ht _ _ H) as [-> ->]. split.
+    + cbn. discriminate.
+    + intros (x & Hin & _). destruct p as [|a [|c p']]; cbn [tl] in Hin; try destruct Hin.
+      * destruct Hp as [_ [(r1 & i1 & n & ss & Hd) _]]. rewrite Hh in Hd. congruence.
+      * destruct Hp as [_ [(r1 & i1 & n & ss & Hd) _]]. rewrite Hh in Hd. congruence.
+  - intros k e. split.
+    + intros [].
+    + intros (lid & v & H & (r1 & i1 & n & ss & p & Hd & _)).
+      destruct (Ht _ _ H) as [-> ->]. rewrite Hh in Hd. congruence.
+  - intros k. exact I.
+  - intros r0 e H. cbn in H. discriminate.
+  - intros k. constructor.
+  - intros r0 lid r' i' n ss p H Hd. destruct (Ht _ _ H) as [-> ->]. rewrite Hh in Hd. congruence.
+  - cbn. constructor; [intros []|constructor].
+Qed.
+
+(* ---- lookup.go removeLayer -------------------------------------------------------------------------------- *)
+Lemma rfl_in l e l' x : remove_from_list l e = Some l' -> In x l' -> In x l.
+Proof.
+  revert l'. induction l as [|a l IH]; intros l' H Hx; cbn [remove_from_list] in H; [discriminate|].
+  destruct (a =? e); [inversion H; subst; now right|].
+  destruct (remove_from_list l e) as [r'|]; [|discriminate]. inversion H; subst.
+  destruct Hx as [<-|Hx]; [now left|right; eauto].
+Qed.
+
+Lemma rfl_keep l e l' x : remove_from_list l e = Some l' -> In x l -> x <> e -> In x l'.
+Proof.
+  revert l'. induction l as [|a l IH]; intros l' H Hx Hne; cbn [remove_from_list] in H; [discriminate|].
+  destruct (a =? e) eqn:E.
+  - apply N.eqb_eq in E. subst a. inversion H; subst. destruct Hx as [->|Hx]; [congruence|auto].
+  - destruct (remove_from_list l e) as [r'|]; [|discriminate]. inversion H; subst.
+    destruct Hx as [<-|Hx]; [now left|right; eauto].
+Qed.
+
+Lemma rfl_nodup l e l' : remove_from_list l e = Some l' -> NoDup l -> NoDup l' /\ ~ In e l'.
+Proof.
+  revert l'. induction l as [|a l IH]; intros l' H Hn; cbn [remove_from_list] in H; [discriminate|].
+  inversion Hn; subst. destruct (a =? e) eqn:E.
+  - apply N.eqb_eq in E. subst a. inversion H; subst. auto.
+  - destruct (remove_from_list l e) as [r'|] eqn:Er; [|discriminate]. inversion H; subst.
+    destruct (IH _ eq_refl H3) as [Hn' Hni]. split.
+    + constructor; auto. intros Hin. apply H2. eapply rfl_in; eauto.
+    + intros [->|Hin]; [rewrite N.eqb_refl in E; discriminate|auto].
+Qed.
+
+Lemma rfl_none l e : remove_from_list l e = None -> ~ In e l.
+Proof.
+  induction l as [|a l IH]; cbn [remove_from_list]; intros H; [intros []|].
+  destruct (a =? e) eqn:E; [discriminate|]. destruct (remove_from_list l e); [discriminate|].
+  intros [->|Hin]; [rewrite N.eqb_refl in E; discriminate|]. now apply IH.
+Qed.
+
+Lemma rfl_ordered d l e l' : remove_from_list l e = Some l' -> ordered d l -> ordered d l'.
+Proof.
+  revert l'. induction l as [|a l IH]; intros l' H Ho; cbn [remove_from_list] in H; [discriminate|].
+  destruct Ho as [Ha Ho]. destruct (a =? e); [inversion H; subst; auto|].
+  destruct (remove_from_list l e) as [r'|] eqn:Er; [|discriminate]. inversion H; subst.
+  split; [|eauto]. intros y Hy. apply Ha. eapply rfl_in; eauto.
+Qed.
+
+(* one key of one removeLayer *)
+Definition lr_step (state : N) (acc : lookup * bool) (k : skey) : lookup * bool :=
+  let '(l, ok) := acc in
+  match aget skey_eqb l k with
+  | None => (l, false)
+  | Some lst =>
+      match remove_from_list lst state with
+      | None => (l, false)
+      | Some [] => (adel skey_eqb l k, ok)
+      | Some lst' => (aset skey_eqb l k lst', ok)
+      end
+  end.
+
+Lemma lr_step_get state l ok k k' :
+  lk_get (fst (lr_step state (l, ok) k)) k' =
+  if skey_eqb k' k then
+    match remove_from_list (lk_get l k) state with Some l' => l' | None => lk_get l k end
+  else lk_get l k'.
+Proof.
+  unfold lr_step, lk_get. destruct (aget skey_eqb l k) as [lst|] eqn:E.
+  - destruct (remove_from_list lst state) as [[|a r]|] eqn:Er; cbn [fst].
+    + rewrite (aget_adel skey_eqb skey_eqb_spec). destruct (skey_eqb k' k) eqn:E2; auto.
+    + rewrite (aget_aset skey_eqb skey_eqb_spec). destruct (skey_eqb k' k) eqn:E2; auto.
+    + destruct (skey_eqb k' k) eqn:E2; auto. apply skey_eqb_spec in E2. subst. now rewrite E.
+  - cbn [fst]. destruct (skey_eqb k' k) eqn:E2; auto. apply skey_eqb_spec in E2. subst. rewrite E.
+    cbn [remove_from_list]. reflexivity.
+Qed.
+
+Lemma lookup_remove_eq lk state keys : lookup_remove lk state keys = fold_left (lr_step state) keys (lk, true).
+Proof.
+  unfold lookup_remove. generalize (lk, true). induction keys as [|k ks IH]; intros acc; cbn [fold_left]; auto.
+  rewrite IH. f_equal. destruct acc. reflexivity.
+Qed.
+
+Lemma lr_fst state : forall ks l a b,
+  fst (fold_left (lr_step state) ks (l, a)) = fst (fold_left (lr_step state) ks (l, b)).
+Proof.
+  induction ks as [|k0 ks IH]; intros l a b; cbn [fold_left]; auto.
+  unfold lr_step at 2 4. destruct (aget skey_eqb l k0) as [lst|]; auto.
+  destruct (remove_from_list lst state) as [[|x r]|]; auto.
+Qed.
+
+(* a property of lists closed under removal of [state] is kept by removeLayer, for every key *)
+Lemma lr_closed (Q : list N -> Prop) state :
+  (forall l l', remove_from_list l state = Some l' -> Q l -> Q l') ->
+  forall keys acc k, Q (lk_get (fst acc) k) -> Q (lk_get (fst (fold_left (lr_step state) keys acc)) k).
+Proof.
+  intros HQ. induction keys as [|k0 ks IH]; intros [l ok] k Hq; cbn [fold_left]; auto.
+  apply IH. rewrite lr_step_get. destruct (skey_eqb k k0) eqn:E; auto.
+  apply skey_eqb_spec in E. subst. cbn [fst] in Hq.
+  destruct (remove_from_list (lk_get l k0) state) eqn:Er; eauto.
+Qed.
+
+Lemma lookup_remove_closed (Q : list N -> Prop) state :
+  (forall l l', remove_from_list l state = Some l' -> Q l -> Q l') ->
+  forall keys lk k, Q (lk_get lk k) -> Q (lk_get (fst (lookup_remove lk state keys)) k).
+Proof. intros HQ keys lk k Hq. rewrite lookup_remove_eq. apply (lr_closed Q state HQ keys (lk, true) k). exact Hq. Qed.
+
+Lemma lookup_remove_gone state : forall keys lk k,
+  NoDup (lk_get lk k) -> In k keys -> ~ In state (lk_get (fst (lookup_remove lk state keys)) k).
+Proof.
+  intros keys lk k. rewrite lookup_remove_eq. generalize true. revert lk.
+  induction keys as [|k0 ks IH]; intros lk ok Hn Hin; [destruct Hin|].
+  cbn [fold_left].
+  destruct (lr_step state (lk, ok) k0) as [l1 ok1] eqn:E1.
+  assert (Hg : forall k', lk_get l1 k' = lk_get (fst (lr_step state (lk, ok) k0)) k') by (intros; now rewrite E1).
+  destruct (skey_eqb k k0) eqn:Ek0.
+  - apply skey_eqb_spec in Ek0. subst k0.
+    assert (Hk : skey_eqb k k = true) by now apply skey_eqb_spec.
+    apply (lr_closed (fun l => ~ In state l) state).
+    + intros l l' Hr Hq Hi. apply Hq. eapply rfl_in; eauto.
+    + cbn [fst]. rewrite Hg, lr_step_get, Hk.
+      destruct (remove_from_list (lk_get lk k) state) eqn:Er; [apply (rfl_nodup _ _ _ Er Hn)|now apply rfl_none].
+  - destruct Hin as [->|Hin]; [rewrite (proj2 (skey_eqb_spec k k) eq_refl) in Ek0; discriminate|].
+    apply IH; auto. rewrite Hg, lr_step_get, Ek0. exact Hn.
+Qed.
+
+Lemma lookup_remove_keep state keys lk k e :
+  In e (lk_get lk k) -> e <> state -> In e (lk_get (fst (lookup_remove lk state keys)) k).
+Proof.
+  intros Hin Hne. apply (lookup_remove_closed (fun l => In e l) state); auto.
+  intros l l' Hr Hq. eapply rfl_keep; eauto.
+Qed.
+
+(* ---- layertree.go:271-282 the re-link loop ------------------------------------------------------------------ *)
+Definition rl_step (diff replaced nb : nat) (s : db) (e : N * nat) : db :=
+  match hget s (snd e) with
+  | Some (Diff _ _ _ _ p) =>
+      if negb (Nat.eqb (snd e) diff) && Nat.eqb p replaced then set_parent s (snd e) nb else s
+  | _ => s
+  end.
+
+Lemma relink_eq s ls diff replaced nb :
+  relink_siblings s ls diff replaced nb = fold_left (rl_step diff replaced nb) ls s.
+Proof.
+  unfold relink_siblings. revert s. induction ls as [|[r lid] ls IH]; intros s; cbn [fold_left]; auto.
+Qed.
+
+Definition rl_parent (diff replaced nb : nat) (inls : bool) (x p : nat) : nat :=
+  if inls && negb (Nat.eqb x diff) && Nat.eqb p replaced then nb else p.
+
+Definition rl_layer (diff replaced nb : nat) (inls : bool) (x : nat) (o : option layer) : option layer :=
+  match o with
+  | Some (Diff r i n ss p) => Some (Diff r i n ss (rl_parent diff replaced nb inls x p))
+  | o => o
+  end.
+
+Lemma rl_step_hget diff replaced nb s e x :
+  hget (rl_step diff replaced nb s e) x = rl_layer diff replaced nb (Nat.eqb x (snd e)) x (hget s x).
+Proof.
+  unfold rl_step, rl_layer, rl_parent. destruct e as [r lid]. cbn [snd].
+  destruct (hget s lid) as [[dr di db0 df dst|r0 i n ss p]|] eqn:E.
+  - destruct (Nat.eqb x lid) eqn:Ex; [apply Nat.eqb_eq in Ex; subst; rewrite E; auto|].
+    destruct (hget s x) as [[]|]; auto.
+  - destruct (negb (Nat.eqb lid diff) && Nat.eqb p replaced) eqn:C.
+    + unfold set_parent. rewrite E, hget_hset, E. destruct (Nat.eqb x lid) eqn:Ex.
+      * apply Nat.eqb_eq in Ex. subst x. rewrite E. cbn [andb]. now rewrite C.
+      * destruct (hget s x) as [[]|]; auto.
+    + destruct (Nat.eqb x lid) eqn:Ex.
+      * apply Nat.eqb_eq in Ex. subst x. rewrite E. cbn [andb]. now rewrite C.
+      * destruct (hget s x) as [[]|]; auto.
+  - destruct (Nat.eqb x lid) eqn:Ex; [apply Nat.eqb_eq in Ex; subst; rewrite E; auto|].
+    destruct (hget s x) as [[]|]; auto.
+Qed.
+
+Lemma rl_step_htc diff replaced nb s e :
+  tr (rl_step diff replaced nb s e) = tr s /\ cfg (rl_step diff replaced nb s e) = cfg s /\
+  length (heap (rl_step diff replaced nb s e)) = length (heap s).
+Proof.
+  unfold rl_step. destruct (hget s (snd e)) as [[|r i n ss p]|] eqn:E; auto.
+  destruct (negb _ && _); auto. unfold set_parent. rewrite E. unfold hset, with_heap. cbn.
+  rewrite length_upd_nth. auto.
+Qed.
+
+Lemma relink_spec diff replaced nb : nb <> replaced -> forall ls s,
+  let s2 := fold_left (rl_step diff replaced nb) ls s in
+  tr s2 = tr s /\ cfg s2 = cfg s /\ length (heap s2) = length (heap s) /\
+  forall x, hget s2 x = rl_layer diff replaced nb (existsb (Nat.eqb x) (map snd ls)) x (hget s x).
+Proof.
+  intros Hne. induction ls as [|e ls IH]; intros s; cbn [fold_left map existsb].
+  - repeat split; auto. intros x. unfold rl_layer, rl_parent. cbn [andb]. destruct (hget s x) as [[]|]; auto.
+  - destruct (IH (rl_step diff replaced nb s e)) as (H1 & H2 & H3 & H4).
+    destruct (rl_step_htc diff replaced nb s e) as (G1 & G2 & G3).
+    repeat split; try congruence.
+    intros x. rewrite H4, rl_step_hget. unfold rl_layer, rl_parent.
+    destruct (hget s x) as [[|r i n ss p]|]; auto. f_equal. f_equal.
+    destruct (Nat.eqb x (snd e)); cbn [orb andb].
+    + destruct (negb (Nat.eqb x diff)); cbn [andb]; [|now rewrite andb_false_r].
+      destruct (Nat.eqb p replaced) eqn:Ep; cbn [andb].
+      * apply Nat.eqb_neq in Hne. rewrite Hne. now rewrite andb_false_r.
+      * rewrite Ep. now rewrite andb_false_r.
+    + reflexivity.
+Qed.
+
+(* ---- layertree.go:275-281 the children map ------------------------------------------------------------------- *)
+Definition pr_of (s : db) (lid : nat) : option N :=
+  match hget s lid with
+  | Some (Diff _ _ _ _ p) => match hget s p with Some pl => Some (layer_root pl) | None => None end
+  | _ => None
+  end.
+
+Definition chget (ch : list (N * list N)) (r : N) : list N :=
+  match aget N.eqb ch r with Some l => l | None => [] end.
+
+Definition ch_step (s : db) (ch : list (N * list N)) (e : N * nat) : list (N * list N) :=
+  match pr_of s (snd e) with
+  | Some pr => aset N.eqb ch pr (chget ch pr ++ [fst e])
+  | None => ch
+  end.
+
+Lemma children_map_eq s : children_map s = fold_left (ch_step s) (t_layers (tr s)) [].
+Proof.
+  unfold children_map. generalize (@nil (N * list N)). induction (t_layers (tr s)) as [|[r lid] ls IH]; intros ch; cbn [fold_left]; auto.
+  rewrite IH. f_equal. unfold ch_step, pr_of, chget. cbn [fst snd].
+  destruct (hget s lid) as [[|r0 i n ss p]|]; auto. destruct (hget s p); auto.
+  destruct (aget N.eqb ch (layer_root l)); auto.
+Qed.
+
+Lemma ch_fold_spec s rho rx : forall ls ch0,
+  In rx (chget (fold_left (ch_step s) ls ch0) rho) <->
+  In rx (chget ch0 rho) \/ exists x, In (rx, x) ls /\ pr_of s x = Some rho.
+Proof.
+  induction ls as [|[r lid] ls IH]; intros ch0; cbn [fold_left].
+  - split; auto. intros [H|(x & [] & _)]; auto.
+  - rewrite IH. unfold ch_step. cbn [fst snd]. destruct (pr_of s lid) as [pr|] eqn:E.
+    + unfold chget at 1. rewrite (aget_aset N.eqb N.eqb_eq). destruct (rho =? pr) eqn:Er.
+      * apply N.eqb_eq in Er. subst pr. rewrite in_app_iff. split.
+        -- intros [[H|[<-|[]]]|(x & Hx & Hp)]; auto.
+           ++ right. exists lid. split; auto. now left.
+           ++ right. exists x. split; auto. now right.
+        -- intros [H|(x & [Heq|Hx] & Hp)]; auto.
+           ++ inversion Heq; subst. left. right. now left.
+           ++ right. eauto.
+      * fold (chget ch0 rho). split.
+        -- intros [H|(x & Hx & Hp)]; auto. right. exists x. split; auto. now right.
+        -- intros [H|(x & [Heq|Hx] & Hp)]; auto.
+           ++ inversion Heq; subst. rewrite E in Hp. inversion Hp; subst. rewrite N.eqb_refl in Er. discriminate.
+           ++ right. eauto.
+    + split.
+      * intros [H|(x & Hx & Hp)]; auto. right. exists x. split; auto. now right.
+      * intros [H|(x & [Heq|Hx] & Hp)]; auto.
+        -- inversion Heq; subst. congruence.
+        -- right. eauto.
+Qed.
+
+Lemma children_spec s rho rx :
+  In rx (chget (children_map s) rho) <-> exists x, In (rx, x) (t_layers (tr s)) /\ pr_of s x = Some rho.
+Proof.
+  rewrite children_map_eq, ch_fold_spec. unfold chget. cbn [aget]. split; [intros [[]|H]; auto|auto].
+Qed.
+
+(* ---- layertree.go:289-300 the cascading removal ------------------------------------------------------------------ *)
+Definition cl_entry (s : db) (o : option nat) : list (N * list skey) :=
+  match o with
+  | Some i => match hget s i with
+              | Some (Diff r' _ _ ss _) => [(r', map fst (kv_data ss))]
+              | _ => []
+              end
+  | None => []
+  end.
+
+Definition cl_apply (lk : lookup) (cl : list (N * list skey)) : lookup :=
+  fold_left (fun lk c => fst (lookup_remove lk (fst c) (snd c))) cl lk.
+
+Lemma clear_diff_spec s t o :
+  t_base (clear_diff s t o) = t_base t /\ t_layers (clear_diff s t o) = t_layers t /\
+  t_desc (clear_diff s t o) = t_desc t /\ t_lookup (clear_diff s t o) = cl_apply (t_lookup t) (cl_entry s o).
+Proof.
+  unfold clear_diff, cl_entry, cl_apply. destruct o as [i|]; auto.
+  destruct (hget s i) as [[|r' i0 n ss p]|]; auto.
+  cbn [fold_left fst snd]. destruct (lookup_remove (t_lookup t) r' (map fst (kv_data ss))). auto.
+Qed.
+
+Lemma mem_in x l : mem x l = true <-> In x l.
+Proof.
+  unfold mem. rewrite existsb_exists. split.
+  - intros (y & Hy & E). apply N.eqb_eq in E. now subst.
+  - intros H. exists x. split; auto. apply N.eqb_refl.
+Qed.
+
+Lemma chget_adel ch r x : chget (adel N.eqb ch r) x = if x =? r then [] else chget ch x.
+Proof. unfold chget. rewrite (aget_adel N.eqb N.eqb_eq). destruct (x =? r); reflexivity. Qed.
+
+Lemma remove_rec_spec s : forall fuel t ch work t',
+  remove_rec fuel s t ch work = Some t' ->
+  exists Rm cl,
+    (forall r, aget N.eqb (t_layers t') r = if mem r Rm then None else aget N.eqb (t_layers t) r) /\
+    (forall a e, is_descendant (t_desc t') a e = if mem e Rm then false else is_descendant (t_desc t) a e) /\
+    t_lookup t' = cl_apply (t_lookup t) cl /\
+    (forall c, In c cl -> exists r, In r Rm /\ In c (cl_entry s (aget N.eqb (t_layers t) r))) /\
+    (forall r c, In r Rm -> In c (cl_entry s (aget N.eqb (t_layers t) r)) -> In c cl) /\
+    (forall r, In r work -> In r Rm) /\
+    (forall x y, In x Rm -> In y (chget ch x) -> In y Rm) /\
+    (forall y, In y Rm -> In y work \/ exists x, In x Rm /\ In y (chget ch x)) /\
+    (NoDup (map fst (t_layers t)) -> NoDup (map fst (t_layers t'))).
+Proof.
+  induction fuel as [|fu IH]; intros t ch work t' H.
+  - destruct work; [|discriminate]. inversion H; subst. exists [], []. cbn [mem existsb].
+    repeat split; auto; try (intros; contradiction).
+  - destruct work as [|r rest].
+    + inversion H; subst. exists [], []. cbn [mem existsb].
+      repeat split; auto; try (intros; contradiction).
+    + cbn [remove_rec] in H.
+      destruct (clear_diff_spec s t (aget N.eqb (t_layers t) r)) as (C1 & C2 & C3 & C4).
+      set (t1 := clear_diff s t (aget N.eqb (t_layers t) r)) in *.
+      apply IH in H. destruct H as (Rm' & cl' & H1 & H2 & H3 & H4 & H5 & H6 & H7 & H8 & H9).
+      cbn [t_layers t_desc t_lookup] in *. rewrite C2 in *. rewrite C3 in *. rewrite C4 in *.
+      exists (r :: Rm'), (cl_entry s (aget N.eqb (t_layers t) r) ++ cl').
+      split; [|split; [|split; [|split; [|split; [|split; [|split; [|split]]]]]]].
+      * intros x. rewrite H1, (aget_adel N.eqb N.eqb_eq). unfold mem. cbn [existsb]. fold (mem x Rm').
+        destruct (x =? r), (mem x Rm'); reflexivity.
+      * intros a e. rewrite H2, is_desc_adel. unfold mem. cbn [existsb]. fold (mem e Rm').
+        destruct (e =? r), (mem e Rm'); reflexivity.
+      * rewrite H3. unfold cl_apply. now rewrite fold_left_app.
+      * intros c Hc. apply in_app_or in Hc. destruct Hc as [Hc|Hc].
+        -- exists r. split; [now left|auto].
+        -- destruct (H4 _ Hc) as (r0 & Hr0 & Hc0). exists r0. split; [now right|].
+           rewrite (aget_adel N.eqb N.eqb_eq) in Hc0. destruct (r0 =? r); [destruct Hc0|auto].
+      * intros r0 c [<-|Hr0] Hc; [apply in_or_app; now left|].
+        destruct (N.eq_dec r0 r) as [->|Hne]; [apply in_or_app; now left|].
+        apply in_or_app. right. apply (H5 r0); auto.
+        rewrite (aget_adel N.eqb N.eqb_eq). apply N.eqb_neq in Hne. now rewrite Hne.
+      * intros x [<-|Hx]; [now left|]. right. apply H6. apply in_or_app. now right.
+      * intros x y [<-|Hx] Hy.
+        -- right. apply H6. apply in_or_app. now left.
+        -- destruct (N.eq_dec x r) as [->|Hne]; [right; apply H6; apply in_or_app; now left|].
+           right. apply (H7 x); auto. rewrite chget_adel. apply N.eqb_neq in Hne. now rewrite Hne.
+      * intros y [<-|Hy]; [left; now left|].
+        destruct (H8 _ Hy) as [Hw|(x & Hx & Hyx)].
+        -- apply in_app_or in Hw. destruct Hw as [Hw|Hw]; [right; exists r; split; [now left|auto]|left; now right].
+        -- rewrite chget_adel in Hyx. destruct (x =? r); [destruct Hyx|]. right. exists x. split; [now right|auto].
+      * intros Hn. apply H9. now apply nodup_keys_adel.
+Qed.
+
+(* ---- layertree.go cap, the flattening case ------------------------------------------------------------------------ *)
+Lemma set_parent_tr s lid p : tr (set_parent s lid p) = tr s /\ cfg (set_parent s lid p) = cfg s /\
+  length (heap (set_parent s lid p)) = length (heap s).
+Proof.
+  unfold set_parent. destruct (hget s lid) as [[|r i n ss y]|]; auto.
+  unfold hset, with_heap. cbn. rewrite length_upd_nth. auto.
+Qed.
+
+Lemma live_nonbase_diff s r x : Inv s -> tget s r = Some x -> x <> t_base (tr s) ->
+  exists i n ss y, hget s x = Some (Diff r i n ss y).
+Proof.
+  intros I H Hne. destruct (inv_path s I _ _ H) as ((l0 & Hl0 & Hr) & q & Hp & _).
+  destruct q as [|a q'].
+  - cbn [app] in Hp. destruct Hp as [Hx _]. congruence.
+  - assert (Hh : (a :: q') ++ [t_base (tr s)] = [] ++ x :: (match q' ++ [t_base (tr s)] with y :: _ => y | [] => x end) :: tl (q' ++ [t_base (tr s)])).
+    { cbn [app] in *. destruct Hp as [-> _]. destruct (q' ++ [t_base (tr s)]) eqn:E; [destruct q'; discriminate|reflexivity]. }
+    rewrite Hh in Hp. destruct (is_path_nonlast_diff _ _ _ _ _ _ Hp) as (r0 & i & n & ss & Hd).
+    rewrite Hd in Hl0. inversion Hl0; subst. cbn [layer_root]. eauto.
+Qed.
+
+Section CapMain.
+  Variables (s s1 : db) (diff parent nb : nat).
+  Variables (dr di : N) (dn : nset) (dss : sset) (pr pi : N) (pn : nset) (pss : sset) (pp : nat).
+  Variables (rd : N).
+  Hypothesis (I : Inv s) (Hrelink : c_relink (cfg s) = true).
+  Hypothesis (Hdlive : tget s rd = Some diff).
+  Hypothesis (Hdiff : hget s diff = Some (Diff dr di dn dss parent)).
+  Hypothesis (Hparent : hget s parent = Some (Diff pr pi pn pss pp)).
+  Hypothesis (Hpersist : persist (walk_fuel s) s parent false = (s1, Ok nb)).
+
+  Notation base := (t_base (tr s)).
+  Let t1 := {| t_base := t_base (tr s1); t_layers := aset N.eqb (t_layers (tr s1)) pr nb;
+               t_desc := t_desc (tr s1); t_lookup := t_lookup (tr s1); t_lkok := t_lkok (tr s1) |}.
+  Let s2a := set_parent (with_tr s1 t1) diff nb.
+  Let s2 := relink_siblings s2a (t_layers t1) diff parent nb.
+
+  (* the chain of [parent] *)
+  Lemma cm_paths : exists qp, is_path s parent (parent :: qp ++ [base]) /\
+      NoDup (diff :: parent :: qp ++ [base]) /\
+      (forall x, In x (diff :: parent :: qp ++ [base]) -> exists rx, root_of s x rx /\ tget s rx = Some x).
+  Proof.
+    destruct (inv_path s I _ _ Hdlive) as (_ & q & Hp & _ & Hnd & Hobj).
+    destruct q as [|a q]; cbn [app] in Hp.
+    - destruct Hp as [_ (r & i & b & f & st & H)]. congruence.
+    - destruct Hp as [-> Hp]. cbn [app] in Hnd, Hobj.
+      destruct (q ++ [base]) as [|y rest] eqn:E; [destruct q; discriminate|].
+      destruct Hp as [(r & i & n & ss & H) Hp]. rewrite Hdiff in H. inversion H; subst y.
+      destruct rest as [|z rest'].
+      + destruct Hp as [_ (r0 & i0 & b & f & st & H')]. congruence.
+      + assert (exists qp, z :: rest' = qp ++ [base]) as (qp & Hq).
+        { destruct q as [|q0 q']; cbn [app] in E; [discriminate|]. inversion E. exists q'. reflexivity. }
+        exists qp. rewrite Hq in *. auto.
+  Qed.
+End CapMain.
+
+Section CapMain2.
+  Variables (s s1 : db) (diff parent nb : nat).
+  Variables (dr di : N) (dn : nset) (dss : sset) (pr pi : N) (pn : nset) (pss : sset) (pp : nat).
+  Variables (rd : N) (qp : list nat) (b0 : nat) (f0 : option nat).
+  Hypothesis (I : Inv s).
+  Hypothesis (Hdlive : tget s rd = Some diff).
+  Hypothesis (Hdiff : hget s diff = Some (Diff dr di dn dss parent)).
+  Hypothesis (Hparent : hget s parent = Some (Diff pr pi pn pss pp)).
+  Notation base := (t_base (tr s)).
+  Notation Pp := (parent :: qp ++ [base]).
+  Hypothesis (Hpp : is_path s parent Pp).
+  Hypothesis (Hnd : NoDup (diff :: Pp)).
+  Hypothesis (Hobj : forall x, In x (diff :: Pp) -> exists rx, root_of s x rx /\ tget s rx = Some x).
+  Hypothesis (HEv : Ev (length (heap s)) Pp s s1).
+  Hypothesis (Hnbge : (length (heap s) <= nb)%nat).
+  Hypothesis (Hnb : hget s1 nb = Some (Disk pr pi b0 f0 false)).
+
+  Let t1 := {| t_base := t_base (tr s1); t_layers := aset N.eqb (t_layers (tr s1)) pr nb;
+               t_desc := t_desc (tr s1); t_lookup := t_lookup (tr s1); t_lkok := t_lkok (tr s1) |}.
+  Let s2a := set_parent (with_tr s1 t1) diff nb.
+  Let s2 := relink_siblings s2a (t_layers t1) diff parent nb.
+
+  Lemma cm_lt x l0 : hget s x = Some l0 -> (x < length (heap s))%nat.
+  Proof. apply hget_lt. Qed.
+
+  Lemma cm_diff_s1 : hget s1 diff = Some (Diff dr di dn dss parent).
+  Proof.
+    rewrite (ev_frame _ _ _ _ HEv); auto. eapply cm_lt; eauto.
+    inversion Hnd; auto.
+  Qed.
+
+  Lemma cm_h2a x : hget s2a x = if Nat.eqb x diff then Some (Diff dr di dn dss nb) else hget s1 x.
+  Proof.
+    unfold s2a, set_parent. change (hget (with_tr s1 t1) diff) with (hget s1 diff). rewrite cm_diff_s1.
+    rewrite hget_hset. change (hget (with_tr s1 t1) diff) with (hget s1 diff). rewrite cm_diff_s1.
+    destruct (Nat.eqb x diff); reflexivity.
+  Qed.
+
+  Lemma cm_nb_ne : nb <> parent.
+  Proof. pose proof (cm_lt _ _ Hparent). lia. Qed.
+
+  Lemma cm_h2 x : hget s2 x = rl_layer diff parent nb (existsb (Nat.eqb x) (map snd (t_layers t1))) x (hget s2a x).
+  Proof. unfold s2. rewrite relink_eq. apply (relink_spec diff parent nb cm_nb_ne). Qed.
+
+  Lemma cm_tr2 : tr s2 = t1.
+  Proof.
+    unfold s2. rewrite relink_eq. destruct (relink_spec diff parent nb cm_nb_ne (t_layers t1) s2a) as (H & _).
+    rewrite H. unfold s2a. destruct (set_parent_tr (with_tr s1 t1) diff nb) as (H' & _). rewrite H'. reflexivity.
+  Qed.
+
+  Lemma cm_root12 x rx : root_of s1 x rx -> root_of s2 x rx.
+  Proof.
+    intros (l0 & H & Hr). unfold root_of. rewrite cm_h2, cm_h2a. destruct (Nat.eqb x diff) eqn:E.
+    - apply Nat.eqb_eq in E. subst x. rewrite cm_diff_s1 in H. inversion H; subst. cbn [rl_layer]. eauto.
+    - rewrite H. destruct l0; cbn [rl_layer]; eauto.
+  Qed.
+
+  Lemma cm_root x rx : root_of s x rx -> root_of s2 x rx.
+  Proof. intros H. apply cm_root12. eapply Ev_root; eauto. Qed.
+
+  Lemma cm_nb2 : hget s2 nb = Some (Disk pr pi b0 f0 false).
+  Proof.
+    rewrite cm_h2, cm_h2a. destruct (Nat.eqb nb diff) eqn:E.
+    - apply Nat.eqb_eq in E. pose proof (cm_lt _ _ Hdiff). lia.
+    - rewrite Hnb. reflexivity.
+  Qed.
+
+  Lemma cm_tr1 : tr s1 = tr s. Proof. apply (ev_tr _ _ _ _ HEv). Qed.
+
+  Lemma cm_L1 r : aget N.eqb (t_layers t1) r = if r =? pr then Some nb else tget s r.
+  Proof. unfold t1. cbn [t_layers]. rewrite (aget_aset N.eqb N.eqb_eq), cm_tr1. reflexivity. Qed.
+
+  Lemma cm_L1_nodup : NoDup (map fst (t_layers t1)).
+  Proof. unfold t1. cbn [t_layers]. apply (nodup_keys_aset N.eqb N.eqb_eq). rewrite cm_tr1. apply (inv_layers_nodup s I). Qed.
+
+  Lemma cm_parent_live : tget s pr = Some parent.
+  Proof.
+    destruct (Hobj parent) as (rx & Hrx & Ht); [right; now left|].
+    assert (rx = pr) by (eapply root_of_fun; eauto; exists (Diff pr pi pn pss pp); auto). now subst.
+  Qed.
+
+  Lemma cm_live_h2 rx x : tget s rx = Some x -> ~ In x Pp ->
+    exists i n ss y, hget s x = Some (Diff rx i n ss y) /\
+                     hget s2 x = Some (Diff rx i n ss (if Nat.eqb y parent then nb else y)).
+  Proof.
+    intros Ht Hni.
+    destruct (live_nonbase_diff s rx x I Ht) as (i & n & ss & y & Hx).
+    { intros ->. apply Hni. right. apply in_or_app. right. now left. }
+    exists i, n, ss, y. split; auto.
+    assert (Hrx : rx <> pr) by (intros ->; rewrite cm_parent_live in Ht; inversion Ht; subst; apply Hni; now left).
+    assert (Hin : existsb (Nat.eqb x) (map snd (t_layers t1)) = true).
+    { apply existsb_exists. exists x. split; [|apply Nat.eqb_refl].
+      apply in_map_iff. exists (rx, x). split; auto. apply (aget_in_nodup _ _ _ cm_L1_nodup).
+      rewrite cm_L1. apply N.eqb_neq in Hrx. now rewrite Hrx. }
+    rewrite cm_h2, Hin, cm_h2a. destruct (Nat.eqb x diff) eqn:E.
+    - apply Nat.eqb_eq in E. subst x. rewrite Hdiff in Hx. inversion Hx; subst.
+      cbn [rl_layer]. unfold rl_parent. rewrite Nat.eqb_refl. cbn [negb andb]. now rewrite Nat.eqb_refl.
+    - rewrite (ev_frame _ _ _ _ HEv); [|eapply cm_lt; eauto|auto]. rewrite Hx. cbn [rl_layer]. unfold rl_parent.
+      rewrite E. cbn [negb andb]. reflexivity.
+  Qed.
+
+  Lemma cm_path_h2 x r i n ss y : In x Pp -> hget s x = Some (Diff r i n ss y) ->
+    exists y', hget s2 x = Some (Diff r i n ss y') /\ forall ry, root_of s y ry -> root_of s2 y' ry.
+  Proof.
+    intros Hin Hx. destruct (ev_diff _ _ _ _ HEv _ _ _ _ _ _ Hx) as (y' & H1 & Hy & Hr).
+    exists y'. split.
+    - rewrite cm_h2, cm_h2a. assert (E : Nat.eqb x diff = false).
+      { apply Nat.eqb_neq. intros ->. inversion Hnd; auto. }
+      rewrite E, H1. cbn [rl_layer]. unfold rl_parent.
+      assert (Hne : Nat.eqb y' parent = false).
+      { apply Nat.eqb_neq. destruct Hy as [->|[_ Hge]]; [|pose proof (cm_lt _ _ Hparent); lia].
+        (* y follows x on the path of parent, whose head is parent *)
+        intros ->. destruct (in_split _ _ Hin) as (a & c & Hs).
+        assert (Hp' := Hpp). rewrite Hs in Hp'. apply is_path_suffix in Hp'.
+        destruct c as [|z c]; [destruct Hp' as [_ (? & ? & ? & ? & ? & Hd)]; congruence|].
+        destruct Hp' as [_ [(r' & i' & n' & ss' & Hd) _]]. rewrite Hx in Hd. inversion Hd; subst z.
+        inversion Hnd as [|? ? _ Hnd']. rewrite Hs in Hnd'.
+        destruct a as [|a0 a']; cbn [app] in Hs; inversion Hs; subst.
+        + inversion Hnd'; subst. apply H2. now left.
+        + inversion Hnd'; subst. apply H2. apply in_or_app. right. right. now left. }
+      now rewrite Hne, andb_false_r.
+    - intros ry Hry. apply cm_root12. auto.
+  Qed.
+
+  (* ---- the cascade ---- *)
+  Variables (Rm : list N) (cl : list (N * list skey)) (t2 : tree) (obr : N).
+  Hypothesis (Hobr : root_of s base obr).
+  Hypothesis (HR1 : forall r, aget N.eqb (t_layers t2) r = if mem r Rm then None else aget N.eqb (t_layers t1) r).
+  Hypothesis (HR2 : forall a e, is_descendant (t_desc t2) a e = if mem e Rm then false else is_descendant (t_desc t1) a e).
+  Hypothesis (HR3 : t_lookup t2 = cl_apply (t_lookup t1) cl).
+  Hypothesis (HR4 : forall c, In c cl -> exists r, In r Rm /\ In c (cl_entry s2 (aget N.eqb (t_layers t1) r))).
+  Hypothesis (HR5 : forall r c, In r Rm -> In c (cl_entry s2 (aget N.eqb (t_layers t1) r)) -> In c cl).
+  Hypothesis (HR6 : In obr Rm).
+  Hypothesis (HR7 : forall x y, In x Rm -> In y (chget (children_map s2) x) -> In y Rm).
+  Hypothesis (HR8 : forall y, In y Rm -> In y [obr] \/ exists x, In x Rm /\ In y (chget (children_map s2) x)).
+
+  Lemma cm_child rx x r' i n ss y' rho :
+    aget N.eqb (t_layers t1) rx = Some x -> hget s2 x = Some (Diff r' i n ss y') -> root_of s2 y' rho ->
+    In rx (chget (children_map s2) rho).
+  Proof.
+    intros Ha Hx (l0 & Hl0 & Hr). apply children_spec. exists x. rewrite cm_tr2. split.
+    - apply (aget_in_nodup _ _ _ cm_L1_nodup). exact Ha.
+    - unfold pr_of. rewrite Hx, Hl0. now subst.
+  Qed.
+
+  Lemma cm_child_inv rx rho : In rx (chget (children_map s2) rho) ->
+    exists x r' i n ss y', aget N.eqb (t_layers t1) rx = Some x /\ hget s2 x = Some (Diff r' i n ss y') /\ root_of s2 y' rho.
+  Proof.
+    intros H. apply children_spec in H. destruct H as (x & Hin & Hp). rewrite cm_tr2 in Hin.
+    apply (aget_in_nodup _ _ _ cm_L1_nodup) in Hin. unfold pr_of in Hp.
+    destruct (hget s2 x) as [[|r' i n ss y']|] eqn:E; try discriminate.
+    destruct (hget s2 y') as [l0|] eqn:E2; [|discriminate]. inversion Hp; subst.
+    exists x, r', i, n, ss, y'. repeat split; auto. exists l0. auto.
+  Qed.
+
+  Lemma cm_base_live : tget s obr = Some base.
+  Proof.
+    destruct (Hobj base) as (rx & Hrx & Ht); [right; right; apply in_or_app; right; now left|].
+    rewrite (root_of_fun _ _ _ _ Hobr Hrx). exact Ht.
+  Qed.
+
+  Lemma cm_K1 : ~ In pr Rm.
+  Proof.
+    intros H. destruct (HR8 _ H) as [[Heq|[]]|(x & Hx & Hc)].
+    - pose proof cm_base_live as Hb. rewrite Heq, cm_parent_live in Hb. inversion Hb as [Hb'].
+      destruct (inv_base s I) as (br & bi & bb & bf & Hbase). rewrite <- Hb' in Hbase. congruence.
+    - destruct (cm_child_inv _ _ Hc) as (x0 & r' & i & n & ss & y' & Ha & Hd & _).
+      rewrite cm_L1, N.eqb_refl in Ha. inversion Ha; subst x0. rewrite cm_nb2 in Hd. discriminate.
+  Qed.
+
+  (* every proper ancestor of the flattened layer is removed *)
+  Lemma cm_K2 : forall c a, Pp = a ++ c -> a <> [] -> forall x rx, In x c -> root_of s x rx -> In rx Rm.
+  Proof.
+    induction c as [|x0 c IH]; intros a Ha Hne x rx Hx Hrx; [destruct Hx|].
+    destruct Hx as [<-|Hx]; [|apply (IH (a ++ [x0]) ltac:(rewrite <- app_assoc; exact Ha) ltac:(destruct a; discriminate) x rx); auto].
+    assert (Hp' := Hpp). rewrite Ha in Hp'. apply is_path_suffix in Hp'.
+    destruct c as [|y c'].
+    - (* the old base *)
+      assert (x0 = base).
+      { assert (Hl : last Pp 0%nat = x0) by (rewrite Ha; apply last_last).
+        rewrite app_comm_cons, last_last in Hl. auto. }
+      subst x0. rewrite (root_of_fun _ _ _ _ Hrx Hobr). exact HR6.
+    - destruct Hp' as [_ [(r & i & n & ss & Hd) Hpy]].
+      assert (Hyin : In y (y :: c')) by now left.
+      destruct (Hobj y) as (ry & Hry & Hty).
+      { right. rewrite Ha. apply in_or_app. right. right. now left. }
+      assert (Hry_rm : In ry Rm) by (apply (IH (a ++ [x0]) ltac:(rewrite <- app_assoc; exact Ha) ltac:(destruct a; discriminate) y ry); auto).
+      assert (Hx0in : In x0 Pp) by (rewrite Ha; apply in_or_app; right; now left).
+      destruct (cm_path_h2 _ _ _ _ _ _ Hx0in Hd) as (y' & Hd2 & Hroot).
+      destruct (Hobj x0) as (rx0 & Hrx0 & Htx0); [now right|].
+      rewrite (root_of_fun _ _ _ _ Hrx Hrx0).
+      apply (HR7 ry); auto. eapply cm_child; eauto.
+      rewrite cm_L1. destruct (rx0 =? pr) eqn:E; auto.
+      apply N.eqb_eq in E. subst rx0. rewrite cm_parent_live in Htx0. inversion Htx0; subst x0.
+      (* parent is the head of Pp and cannot re-occur in the tail *)
+      exfalso. inversion Hnd as [|? ? _ Hnd']. destruct a as [|a0 a']; [congruence|].
+      cbn [app] in Ha. inversion Ha as [[Ha0 Ha1]]. inversion Hnd' as [|? ? Hni _]. apply Hni.
+      rewrite Ha1. apply in_or_app. right. now left.
+  Qed.
+
+  Lemma cm_K3 rx x r' i n ss y' rho :
+    ~ In rx Rm -> aget N.eqb (t_layers t1) rx = Some x -> hget s2 x = Some (Diff r' i n ss y') ->
+    root_of s2 y' rho -> ~ In rho Rm.
+  Proof. intros Hn Ha Hx Hr Hin. apply Hn. apply (HR7 rho); auto. eapply cm_child; eauto. Qed.
+
+  Lemma cm_not_parent rx x : tget s rx = Some x -> rx <> pr -> x <> parent.
+  Proof.
+    intros Ht Hne ->. destruct (inv_path s I _ _ Ht) as (Hr & _).
+    apply Hne. eapply root_of_fun; eauto. exists (Diff pr pi pn pss pp). auto.
+  Qed.
+
+  Lemma cm_surv_notin rx x : tget s rx = Some x -> ~ In rx Rm -> rx <> pr -> ~ In x Pp.
+  Proof.
+    intros Ht Hn Hne [Heq|Hin]; [symmetry in Heq; eapply cm_not_parent; eauto|].
+    apply Hn. destruct (inv_path s I _ _ Ht) as (Hr & _).
+    apply (cm_K2 (qp ++ [base]) [parent] eq_refl ltac:(discriminate) x rx); auto.
+  Qed.
+
+  (* a removed layer has only removed ancestors *)
+  Lemma cm_up : forall pth x rx, is_path s x pth ->
+    (forall z, In z pth -> exists rz, root_of s z rz /\ tget s rz = Some z) ->
+    tget s rx = Some x -> In rx Rm -> forall z rz, In z pth -> root_of s z rz -> In rz Rm.
+  Proof.
+    induction pth as [|x0 rest IH]; intros x rx Hp Hob Ht Hrm z rz Hz Hrz; [destruct Hp|].
+    destruct Hp as [-> Hp]. destruct (inv_path s I _ _ Ht) as (Hrx & _).
+    destruct Hz as [<-|Hz]; [now rewrite (root_of_fun _ _ _ _ Hrz Hrx)|].
+    destruct rest as [|y rest']; [destruct Hz|]. destruct Hp as [(r & i & n & ss & Hd) Hpy].
+    destruct (Hob y) as (ry & Hry & Hty); [right; now left|].
+    assert (Hry_rm : In ry Rm).
+    { destruct (HR8 _ Hrm) as [[Heq|[]]|(x0 & Hx0 & Hc)].
+      - rewrite <- Heq in Ht. rewrite cm_base_live in Ht. inversion Ht as [Hb].
+        destruct (inv_base s I) as (br & bi & bb & bf & Hbase). rewrite Hb in Hbase. congruence.
+      - destruct (cm_child_inv _ _ Hc) as (x' & r' & i' & n' & ss' & y' & Ha & Hd2 & Hroot).
+        rewrite cm_L1 in Ha. destruct (rx =? pr) eqn:E.
+        + inversion Ha; subst x'. rewrite cm_nb2 in Hd2. discriminate.
+        + rewrite Ht in Ha. inversion Ha; subst x'.
+          destruct (in_dec Nat.eq_dec x Pp) as [Hin|Hni].
+          * destruct (cm_path_h2 _ _ _ _ _ _ Hin Hd) as (y'' & Hd3 & Hr3). rewrite Hd2 in Hd3. inversion Hd3; subst.
+            rewrite (root_of_fun _ _ _ _ (Hr3 _ Hry) Hroot). exact Hx0.
+          * destruct (cm_live_h2 _ _ Ht Hni) as (i2 & n2 & ss2 & y2 & Hd4 & Hd5). rewrite Hd in Hd4. inversion Hd4; subst.
+            rewrite Hd2 in Hd5. inversion Hd5; subst. destruct (Nat.eqb y2 parent) eqn:Ey.
+            -- exfalso. apply cm_K1. assert (x0 = pr) by (eapply root_of_fun; eauto; exists (Disk pr pi b0 f0 false); split; [apply cm_nb2|reflexivity]).
+               now subst.
+            -- rewrite (root_of_fun _ _ _ _ (cm_root _ _ Hry) Hroot). exact Hx0. }
+    apply (IH y ry Hpy); auto. intros z0 Hz0. apply Hob. now right.
+  Qed.
+
+  (* a surviving layer reaches the new base *)
+  Lemma cm_surv_path : forall pth x rx, is_path s x pth ->
+    (forall z, In z pth -> exists rz, root_of s z rz /\ tget s rz = Some z) ->
+    tget s rx = Some x -> ~ In rx Rm -> rx <> pr ->
+    exists q1 rest, pth = q1 ++ parent :: rest /\ is_path s2 x (q1 ++ [nb]) /\
+      forall z, In z q1 -> ~ In z Pp /\ exists rz, root_of s z rz /\ tget s rz = Some z /\ ~ In rz Rm /\ rz <> pr.
+  Proof.
+    induction pth as [|x0 rest IH]; intros x rx Hp Hob Ht Hn Hne; [destruct Hp|].
+    destruct Hp as [-> Hp]. destruct (inv_path s I _ _ Ht) as (Hrx & _).
+    pose proof (cm_surv_notin _ _ Ht Hn Hne) as Hni.
+    destruct (cm_live_h2 _ _ Ht Hni) as (i & n & ss & y & Hd & Hd2).
+    destruct rest as [|y0 rest']; [destruct Hp as (? & ? & ? & ? & ? & Hp); congruence|].
+    destruct Hp as [(r & i' & n' & ss' & Hd') Hpy]. rewrite Hd in Hd'. inversion Hd'; subst y0. clear Hd'.
+    assert (Hzx : ~ In x Pp /\ exists rz, root_of s x rz /\ tget s rz = Some x /\ ~ In rz Rm /\ rz <> pr) by eauto 8.
+    destruct (Nat.eqb y parent) eqn:Ey.
+    - apply Nat.eqb_eq in Ey. subst y. exists [x], rest'. split; [reflexivity|]. split.
+      + cbn [app]. split; auto. split; [eauto|]. split; auto. exists pr, pi, b0, f0, false. apply cm_nb2.
+      + intros z [<-|[]]. exact Hzx.
+    - destruct (Hob y) as (ry & Hry & Hty); [right; now left|].
+      assert (Hry_n : ~ In ry Rm).
+      { eapply (cm_K3 rx x); eauto. rewrite cm_L1. apply N.eqb_neq in Hne. now rewrite Hne. apply cm_root. exact Hry. }
+      assert (Hry_ne : ry <> pr).
+      { intros ->. rewrite cm_parent_live in Hty. inversion Hty. subst. rewrite Nat.eqb_refl in Ey. discriminate. }
+      destruct (IH y ry Hpy) as (q1 & rest2 & Hs & Hp2 & Hq); auto.
+      { intros z0 Hz0. apply Hob. now right. }
+      exists (x :: q1), rest2. split; [cbn [app]; now rewrite Hs|]. split.
+      + cbn [app]. split; auto. destruct (q1 ++ [nb]) as [|y1 r1] eqn:E; [destruct q1; discriminate|].
+        assert (y1 = y) by (destruct Hp2 as [Hy _]; exact Hy). subst y1. split; [eauto|exact Hp2].
+      + intros z [<-|Hz]; [exact Hzx|auto].
+  Qed.
+End CapMain2.
+
